@@ -52,11 +52,12 @@ CLAIMS = {
     "C04": (
         "effect-contract analysis of the pairing state machine: symbolic effects with path conditions, loop membership and "
         "statement order, return-term matching against re-derived parse_event_list terms",
-        "Decides necessary structural conditions K1-K10 of the three-method state machine (thread keying, only the event or a "
+        "Decides necessary structural conditions K1-K11 of the three-method state machine (thread keying, only the event or a "
         "fresh container stored, unconditional window reset before the append-to-all loop on START, guarded "
         "append-then-pop-then-decode on END, append-and-decode on NONE/ALL, domain selection by the trace-family registry, "
         "totality of the qualifier table, the generator yielding exactly the non-None results in order, and - as an ownership "
-        "rule over all registered decoders and the parser's other methods - nothing else writes the window tables). The window contents "
+        "rule over all registered decoders and the parser's other methods - nothing else writes the window tables, and every decoder "
+        "returns a trace on every path that does not test the record's own qualifier). The window contents "
         "as a function of an arbitrary history are not decided: each K is such that breaking it changes the traces of some "
         "history, which the seeded-fault self-test demonstrates.",
         "Histories themselves are not enumerated (that would be a different technique).",
